@@ -470,6 +470,7 @@ fn fragment_survivors() -> Vec<crate::xrun::XCase> {
         let defs = format!("pub mod m {{ use derive_ex::{{derive_ex, Ex}};\nmacro_rules! v {{ ($v:vis struct $n:ident, $w:vis fld) => {{ {head} $v struct $n {{ $w a: u8, $v b: u8 }} }} }}\nv!(pub struct A, fld);\nv!(pub(crate) struct B, pub(super) fld);\nmacro_rules! p {{ ($n:ident, $p:path, $q:path, $l:lifetime) => {{ {head} pub struct $n<$l, T: $q>(pub $p, pub ::core::option::Option<&$l T>) where T: $q; }} }}\np!(D, ::std::vec::Vec<T>, ::core::clone::Clone, 'a);\nmacro_rules! li {{ ($n:ident, $l:literal, $b:block) => {{ {head} pub struct $n(pub [u8; $l], #[default($l)] pub u8, pub Arr<$b>); }} }}\n#[derive(Clone, Debug)] pub struct Arr<const N: usize>(pub [u8; N]);\nimpl<const N: usize> Default for Arr<N> {{ fn default() -> Self {{ Arr([7; N]) }} }}\nli!(F, 3, {{ 1 + 1 }}); }}");
         push(format!("{entry}: vis / path / lifetime / literal / block fragments"), defs, "{ let a = <m::A as ::core::default::Default>::default(); let b = <m::B as ::core::default::Default>::default(); format!(\"{};{};{:?};{:?}\", a.b, b.a + b.b, <m::D<'static, u8> as ::core::default::Default>::default(), <m::F as ::core::default::Default>::default()) }".into(), "0;0;D([], None);F([0, 0, 0], 3, Arr([7, 7]))".into());
     }
+    push("impl item: struct-literal expr fragment in the head of a for loop / if let / match".into(), "pub mod m { use derive_ex::derive_ex; #[derive(Clone)] pub struct Z(pub usize); macro_rules! h { ($e:expr) => { #[derive_ex(AddAssign)] impl ::core::ops::Add<usize> for Z { type Output = Z; fn add(self, r: usize) -> Z { let mut s = self.0 + r; for i in $e { s += i; } if let ::core::ops::Range { start: 0, end } = $e { s += end; } match $e { ::core::ops::Range { start, .. } => s += start } Z(s) } } } } h!(::core::ops::Range { start: 0usize, end: 3usize }); }".into(), "{ let mut z = m::Z(1); z += 1; format!(\"{};{}\", (m::Z(1) + 1).0, z.0) }".into(), "8;8".into());
     push("impl item: pat / stmt / block / ty fragments in a method".into(), "pub mod m { use derive_ex::derive_ex; #[derive(Clone, Debug)] pub struct X(pub u8);\nmacro_rules! im { ($p:pat, $s:stmt, $b:block, $t:ty) => { #[derive_ex(AddAssign)] impl ::core::ops::Add<u8> for X { type Output = $t; fn add(self, r: u8) -> $t { $s; match r { $p => X(self.0 + 10), _ => $b } } } } }\nim!(1 | 2, let _k = 10, { X(0) }, X); }".into(), "{ let mut x = m::X(1); x += 2; format!(\"{:?};{:?}\", x, m::X(1) + 7) }".into(), "X(11);X(0)".into());
     out
 }
